@@ -6,7 +6,7 @@ vector is pushed / popped-on-failure / restored-and-popped in matching sets from
 position counter moves by exactly one, and the refusals precede every mutation.
 Not decided: equality of the continued outcome (needs determinism of a step = C01).
 """
-from .. import astq
+from .. import astq, structure as S
 from ..facts import AnalysisBroken
 from . import common
 
@@ -108,6 +108,20 @@ def run(ctx, anchors=None):
         if f is None or not f:
             continue
         W.setdefault(f, wit)
+    # the stepper's own direct writes inside the operation branch (the `if` whose then-region contains the step call)
+    op_branch = None
+    for a in stepper.ancestors(call):
+        if a.get("k") == "if" and S.contains(a["then"], call):
+            op_branch = a
+    if op_branch is not None:
+        inside = {id(x) for x in astq.walk(op_branch["then"])}
+        for (n_, kind, ps, detail) in astq.write_events(stepper, lambda cid: (prog.resolve(cid) or None)):
+            if kind == "call" or id(n_) not in inside:
+                continue
+            for p_ in ps:
+                f_ = env_fields(norm_root(stepper, p_), {env_root_stepper})
+                if f_ and not f_[0].endswith("_history") and f_ != (A["counter"],):
+                    W.setdefault(f_, (stepper.id, stepper.loc(n_), kind, detail))
     # restore set
     Rs = {}
     for p, wit in ws[rewind.id].items():
@@ -396,6 +410,7 @@ def run(ctx, anchors=None):
 
 
 MUTANTS = [
+    dict(name="opcode_pos-not-restored", file="debugger/interpreter.cpp", find="    env.opcode_pos = env.opcode_pos_history.back();\n", replace="", expect=["R04.1:field=opcode_pos", "R04.2:restore:opcode_pos_history"]),
     dict(name="opcount-recomputed-on-rewind", file="debugger/interpreter.cpp", find="    env.nOpCount = env.nOpCount_history.back();\n", replace="    if (env.nOpCount > 0) env.nOpCount--;\n", expect=["R04.1:restored-from-snapshot=nOpCount", "R04.2:restore:nOpCount_history"]),
     dict(name="empty-history-guard-removed", file="debugger/interpreter.cpp", find="    if (env.stack_history.size() == 0) {\n        printf(\"no stack history\\n\");\n        return false;\n    }\n", replace="", expect=["R04.3:RewindScript:has-refusal", "R04.3:history-read-guarded"]),
     dict(name="drop-restore-vfExec", file="debugger/interpreter.cpp", find="    env.vfExec = env.vfExec_history.back();\n", replace="", expect=["R04.1:field=vfExec", "R04.2:restore:vfExec_history"]),
